@@ -172,8 +172,13 @@ func variantsFor(v *schema.V) []variant {
 		{"plus-space", nil, &refror2.Options{PlusSpace: true}},
 	}
 	for _, pos := range []int{0, 1, -1} {
-		for _, ex := range []struct{ n, v string }{{"xprim", `42`}, {"xstr", `"s"`}, {"xobj", `{"a":{"b":[1,{"c":null}]},"d":"e"}`}, {"xarr", `[1,[2,[3]],{"k":"v"}]`}, {"xnull", `null`}, {"xempty", `{}`}} {
-			vs = append(vs, variant{fmt.Sprintf("extra-%s@%d", ex.n, pos), &refjson.Options{Extra: &refjson.ExtraField{Name: ex.n, Value: ex.v, Pos: pos}}, nil})
+		for _, ex := range []struct{ n, v, r string }{{"xprim", `42`, "42"}, {"xstr", `"s"`, "s"}, {"xobj", `{"a":{"b":[1,{"c":null}]},"d":"e"}`, "(a:(b:List(1,(c:d))),d:e)"},
+			{"xarr", `[1,[2,[3]],{"k":"v"}]`, "List(1,List(2,List(3)),(k:v))"}, {"xnull", `null`, ""}, {"xempty", `{}`, "()"}, {"xemptyarr", `[]`, "List()"}, {"xemptystr", `""`, "''"}} {
+			var ro *refror2.Options
+			if ex.r != "" {
+				ro = &refror2.Options{Extra: &refror2.ExtraField{Name: ex.n, Value: ex.r, Pos: pos}}
+			}
+			vs = append(vs, variant{fmt.Sprintf("extra-%s@%d", ex.n, pos), &refjson.Options{Extra: &refjson.ExtraField{Name: ex.n, Value: ex.v, Pos: pos}}, ro})
 		}
 	}
 	// all permutations of the top-level record's present keys
@@ -219,7 +224,7 @@ func partC03(a *hcli.Args, rep *report.Report, univName string, u *schema.Univer
 	s2 := rep.S("ref-to-lib-canonical")
 	s2.Bounds = "reference encoding of every deviation<=1 value x 4 reader flavours (json, header, path, query) fed to the library"
 	s3 := rep.S("ref-to-lib-variants")
-	s3.Bounds = "every deviation<=1 value over the reduced alphabets x document variants (key permutations, unknown fields at 3 positions x 6 shapes, whitespace, alternative escapes, lower-case hex, over-escaping, + for space)"
+	s3.Bounds = "every deviation<=1 value over the reduced alphabets x document variants (key permutations, unknown fields at 3 positions x 8 shapes in JSON and ROR2, whitespace, alternative escapes, lower-case hex, over-escaping, + for space)"
 	for wi, w := range u.Wrappers {
 		if !a.Mine(wi) {
 			continue
